@@ -243,6 +243,9 @@ impl Writer {
             if size != self.written {
                 return Err(Error::SizeMismatch(size, self.written));
             }
+        } else {
+            // No size was declared: record the number of bytes actually written.
+            self.opts.size = Some(self.written);
         }
         if let Some(key) = self.key {
             index::insert_async(&cache, &key, self.opts).await
@@ -594,6 +597,9 @@ impl SyncWriter {
             if size != self.written {
                 return Err(Error::SizeMismatch(size, self.written));
             }
+        } else {
+            // No size was declared: record the number of bytes actually written.
+            self.opts.size = Some(self.written);
         }
         if let Some(key) = self.key {
             index::insert(&cache, &key, self.opts)
